@@ -1280,6 +1280,45 @@ func ruleFormulaSpec(c *Ctx) {
 				verdicts[i] = verdict{status: "missing", pos: f.pos, msg: fmt.Sprintf("%s hands %s to an unexported helper whose formulas this rule cannot relate to the reviewed one {%s} (%s)", e.fn, e.target, strings.Join(e.named, " ; "), e.spec)}
 				continue
 			}
+			// the variable was split in two: what the reviewed formulas did to one variable step by step (t += x in a
+			// loop; t = max(t, m) after it) is done to a first variable and carried on in the target (a += x; t :=
+			// max(a, m)). Read with the first variable standing where the target stood (§self), the two together are
+			// the reviewed formulas.
+			{
+				split := false
+				for _, other := range sortedKeys(own) {
+					if other == e.target || strings.ContainsAny(other, "#:.[") || split {
+						continue
+					}
+					of := own[other]
+					sub := func(list []string) []string {
+						var out []string
+						for _, x := range list {
+							out = append(out, resortMinMax(replaceIdentToken(x, other, "§self")))
+						}
+						return out
+					}
+					for _, pair := range [][3][]string{{f.res, of.res, e.res}, {f.named, of.named, e.named}} {
+						if len(pair[2]) < 2 {
+							continue
+						}
+						joined := append(sub(pair[0]), pair[1]...)
+						uses := false
+						for _, x := range pair[0] {
+							if resortMinMax(replaceIdentToken(x, other, "§self")) != x {
+								uses = true
+							}
+						}
+						if uses && sameMultiset(notAbsorbed(joined), notAbsorbed(pair[2])) {
+							split = true
+							verdicts[i] = verdict{"ok", "res", f.pos, e.spec + " (the steps are spread over " + other + " and " + e.target + ")"}
+						}
+					}
+				}
+				if split {
+					continue
+				}
+			}
 			// or under another name in the function or a helper of it (the local was re-purposed)
 			verdicts[i] = verdict{"bad", "", f.pos, fmt.Sprintf("%s computes %s as {%s}; in canonical form that is {%s}, the reviewed formula is {%s} — spec: %s", e.fn, e.target, strings.Join(f.texts, " ; "), strings.Join(f.named, " ; "), strings.Join(e.named, " ; "), e.spec)}
 			continue
@@ -1425,6 +1464,42 @@ func ruleFormulaSpec(c *Ctx) {
 		}
 		if _, ok := all[e.fn]; !ok {
 			continue
+		}
+		// not dropped but folded into one expression elsewhere: some other formula of the function reads the target and
+		// mentions every operand of the reviewed steps (append(out, clip(bal+reward, penalty)) for bal += reward; bal -=
+		// min(penalty, bal)). How the steps compose there is not decided by this rule.
+		{
+			want := map[string]bool{}
+			for _, f := range e.res {
+				for t := range tok(f) {
+					if t != "self" && t != "min" && t != "max" && t != "mod" && t != "shr" && t != "trunc32" {
+						want[t] = true
+					}
+				}
+			}
+			folded := false
+			for _, sv := range all[e.fn] {
+				if sv.target == e.target {
+					continue
+				}
+				have := tok(sv.res)
+				if !tok(sv.named)[e.target] {
+					continue
+				}
+				allIn := len(want) > 0
+				for t := range want {
+					if !have[t] {
+						allIn = false
+					}
+				}
+				if allIn {
+					folded = true
+				}
+			}
+			if folded {
+				verdicts[i].msg = fmt.Sprintf("%s no longer assigns {%s} to %s step by step; another formula of the function reads %s and all the operands of those steps, how they compose there is not decided (%s)", e.fn, strings.Join(e.named, " ; "), e.target, e.target, e.spec)
+				continue
+			}
 		}
 		if sw := stillDeclared(e.fn, []string{e.target}, nil); len(sw) > 0 {
 			verdicts[i] = verdict{"bad", "", verdicts[i].pos, fmt.Sprintf("%s no longer assigns {%s} to %s, although %s is still a variable of the function and nothing else carries that formula: the update was dropped — spec: %s", e.fn, strings.Join(e.named, " ; "), e.target, e.target, e.spec)}
